@@ -56,6 +56,7 @@ type cfgService struct {
 }
 
 type cfgCase struct {
+	RawYAML  string            `json:"rawYaml,omitempty"` // a hand-written document whose values have the wrong YAML type: loading must fail
 	LoadEnv  map[string]string `json:"loadEnv,omitempty"` // the LoadConfig-from-environment check instead of a document
 	Environ  []string          `json:"environ,omitempty"` // the environment-parsing check instead of a document
 	Services []cfgService      `json:"services"`
@@ -240,6 +241,12 @@ func cfgLoadEnv(c cfgCase) M {
 				g = []string{}
 			}
 			out["defaultGroups"] = g
+			t := conf.SessionConfig.TTLConfig
+			out["ttlLifetime"], out["ttlValid"], out["ttlGrace"] = int64(t.Lifetime/time.Second), int64(t.Valid/time.Second), int64(t.GracePeriod/time.Second)
+			cc := conf.SessionConfig.CookieConfig
+			out["cookieName"], out["cookieDomain"], out["cookieHTTPOnly"], out["cookieSecure"] = cc.Name, cc.Domain, cc.HTTPOnly, cc.Secure
+			d := conf.UpstreamConfigs.DefaultConfig.EmailConfig
+			out["defaultDomains"], out["defaultAddresses"] = nzs(d.AllowedDomains), nzs(d.AllowedAddresses)
 		} else {
 			out["error"] = err.Error()
 		}
@@ -247,7 +254,42 @@ func cfgLoadEnv(c cfgCase) M {
 	return M{"kind": "loadenv", "env": c.LoadEnv, "out": out, "raw": c}
 }
 
+// cfgRaw: a document with a value of the wrong YAML type (a scalar where a list belongs, a list where a mapping belongs …).
+// The loader must refuse it: a restriction the file states must never silently disappear.
+func cfgRaw(c cfgCase) M {
+	f, err := os.CreateTemp("", "verif-upstreams-raw-*.yml")
+	if err != nil {
+		panic(err)
+	}
+	defer os.Remove(f.Name())
+	f.WriteString(c.RawYAML)
+	f.Close()
+	out := M{}
+	func() {
+		defer func() {
+			if r := recover(); r != nil {
+				out["panic"] = fmt.Sprint(r)
+			}
+		}()
+		ups, lerr := proxy.VerifLoadUpstreams(f.Name(), "prod", "https", map[string]string{"cluster": "prod"}, nil, []string{"x.io"}, nil, 10*time.Second, 0, "", "_sso_proxy")
+		out["loaded"] = lerr == nil
+		if lerr != nil {
+			out["err"] = lerr.Error()
+		} else {
+			var res []M
+			for _, u := range ups {
+				res = append(res, M{"service": u.Service, "groups": nz(u.AllowedGroups), "domains": nz(u.AllowedEmailDomains), "addrs": nz(u.AllowedEmailAddresses), "skip": len(u.SkipAuthCompiledRegex)})
+			}
+			out["ups"] = res
+		}
+	}()
+	return M{"kind": "rawyaml", "yaml": c.RawYAML, "out": out, "raw": c}
+}
+
 func cfgRun(c cfgCase) M {
+	if c.RawYAML != "" {
+		return cfgRaw(c)
+	}
 	if c.LoadEnv != nil {
 		return cfgLoadEnv(c)
 	}
@@ -385,6 +427,27 @@ func init() {
 			emit(cfgCase{LoadEnv: map[string]string{"UPSTREAM_CLUSTER": "prod", "UPSTREAM_DEFAULT_GROUPS": v}})
 		}
 		emit(cfgCase{LoadEnv: map[string]string{"UPSTREAM_CLUSTER": "prod", "UPSTREAM_DEFAULT_GROUPS": "eng,true,ops"}})
+		// documents whose values have the wrong YAML type
+		for _, y := range []string{
+			"- service: admin\n  default:\n    from: admin.x.io\n    to: admin.internal\n    options:\n      allowed_groups: admins@x.io\n",
+			"- service: admin\n  default:\n    from: admin.x.io\n    to: admin.internal\n    options:\n      - allowed_groups: [admins]\n",
+			"- service: admin\n  default:\n    from: admin.x.io\n    to: admin.internal\n    options:\n      allowed_groups: [admins]\n    extra_routes:\n      from: x.x.io\n      to: y\n",
+			"- service: admin\n  default:\n    from: admin.x.io\n    to: admin.internal\n    options:\n      skip_auth_regex: ^/health$\n",
+			"- service: admin\n  default:\n    from: admin.x.io\n    to: admin.internal\n    options:\n      allowed_email_addresses: {a: b}\n",
+			"- service: admin\n  default:\n    from: admin.x.io\n    to: admin.internal\n  prod:\n    options:\n      allowed_groups: admins\n",
+			"- service: admin\n  default:\n    from: [admin.x.io]\n    to: admin.internal\n",
+			"- service: admin\n  default: admin.x.io\n",
+			"- service: admin\n  owner: team-x\n  default:\n    from: admin.x.io\n    to: admin.internal\n",
+			"service: admin\ndefault:\n  from: admin.x.io\n  to: admin.internal\n",
+		} {
+			emit(cfgCase{RawYAML: y})
+		}
+		// the session TTLs and cookie settings the deployment states are the ones in force
+		for _, ttl := range [][3]string{{"2h", "30s", "2s"}, {"10m", "5s", "0s"}, {"1h", "1m", "3h"}, {"24h", "90s", "45m"}} {
+			emit(cfgCase{LoadEnv: map[string]string{"UPSTREAM_CLUSTER": "prod", "SESSION_TTL_LIFETIME": ttl[0], "SESSION_TTL_VALID": ttl[1], "SESSION_TTL_GRACEPERIOD": ttl[2]}})
+		}
+		emit(cfgCase{LoadEnv: map[string]string{"UPSTREAM_CLUSTER": "prod", "SESSION_COOKIE_NAME": "_my_proxy", "SESSION_COOKIE_DOMAIN": "x.io", "SESSION_COOKIE_HTTPONLY": "false",
+			"UPSTREAM_DEFAULT_EMAIL_DOMAINS": "x.io,y.io", "UPSTREAM_DEFAULT_EMAIL_ADDRESSES": "ann@x.io"}})
 		O := func(f func(o *cfgOpts)) *cfgOpts { o := &cfgOpts{}; f(o); return o }
 		base := cfgRoute{From: "app.x.io", To: "app.internal", Options: O(func(o *cfgOpts) { o.Groups = []string{"admins"}; o.SkipAuthRegex = []string{"^/health$"} })}
 		prelude := []cfgCase{
@@ -402,6 +465,15 @@ func init() {
 			{Services: []cfgService{{Name: "app", Clusters: []string{"default"}, Blocks: []cfgBlock{{Route: base, Extras: []cfgRoute{{From: "api.x.io"}, {From: "adm.x.io", To: "adm.internal", Options: O(func(o *cfgOpts) { o.Addrs = []string{"root@x.io"}; o.Timeout = 9 })}}}}}}, Cluster: "prod", DefDoms: []string{"x.io"}},
 			{Services: []cfgService{{Name: "app", Clusters: []string{"default"}, Blocks: []cfgBlock{{Route: cfgRoute{From: "{{cluster}}.x.io", To: "app.{{cluster}}.internal"}}}}}, Cluster: "prod", DefDoms: []string{"x.io"}, Vars: map[string]string{"cluster": "prod", "app_signing_key": "sha256:secret"}},
 			{Services: []cfgService{{Name: "app", Clusters: []string{"default"}, Blocks: []cfgBlock{{Route: base}}}}, Cluster: "prod", Vars: map[string]string{"app_signing_key": "nope"}},
+			// two services, the first with a rewrite extra route that overlaps the second service's rewrite route: resolved order is
+			// services first, extra routes after
+			{Services: []cfgService{
+				{Name: "preview", Clusters: []string{"default"}, Blocks: []cfgBlock{{Route: cfgRoute{From: "preview.x.io", To: "preview.internal"},
+					Extras: []cfgRoute{{From: "^(.*)--preview\\.x\\.io$", To: "$1.preview.internal", Type: "rewrite"}}}}},
+				{Name: "secure", Clusters: []string{"default"}, Blocks: []cfgBlock{{Route: cfgRoute{From: "^secure-(.*)\\.x\\.io$", To: "secure-$1.internal", Type: "rewrite",
+					Options: O(func(o *cfgOpts) { o.Groups = []string{"admins"}; o.ProviderSlug = "okta" })}}}},
+				{Name: "third", Clusters: []string{"default"}, Blocks: []cfgBlock{{Route: cfgRoute{From: "third.x.io", To: "third.internal"}, Extras: []cfgRoute{{From: "fourth.x.io", To: "fourth.internal"}}}}}},
+				Cluster: "prod", DefDoms: []string{"x.io"}},
 			// every listed skip-auth pattern compiles or the load fails — wherever in the list the bad one stands
 			{Services: []cfgService{{Name: "app", Clusters: []string{"default"}, Blocks: []cfgBlock{{Route: cfgRoute{From: "app.x.io", To: "app.internal", Options: O(func(o *cfgOpts) { o.SkipAuthRegex = []string{"(", "^/ok$"} })}}}}}, Cluster: "prod", DefDoms: []string{"x.io"}},
 			{Services: []cfgService{{Name: "app", Clusters: []string{"default"}, Blocks: []cfgBlock{{Route: cfgRoute{From: "app.x.io", To: "app.internal", Options: O(func(o *cfgOpts) { o.SkipAuthRegex = []string{"^/a", "^/hook/(?!admin).*$", "^/b"} })}}}}}, Cluster: "prod", DefDoms: []string{"x.io"}},
